@@ -958,6 +958,16 @@ class state_machine_base : public FrontEnd
             deferred_event<Event>{self(), event, seq_cnt}));
     }
 
+    // Clears the processing mark when leaving a scope, also by an exception.
+    struct event_processing_reset
+    {
+        ~event_processing_reset()
+        {
+            flag = false;
+        }
+        bool& flag;
+    };
+
     template <class Event, class Fsm>
     void preprocess_entry(Event const& event, Fsm& fsm)
     {
@@ -1005,6 +1015,8 @@ class state_machine_base : public FrontEnd
     template <class Event, class Fsm>
     void on_entry(Event const& event, Fsm& fsm)
     {
+        // Do not stay marked as processing if an entry behavior throws.
+        event_processing_reset reset_on_exit{m_event_processing};
         preprocess_entry(event, fsm);
 
         state_entry_visitor<Event> visitor{self(), event};
@@ -1016,6 +1028,8 @@ class state_machine_base : public FrontEnd
     template <class TargetStates, class Event, class Fsm>
     void on_explicit_entry(Event const& event, Fsm& fsm)
     {
+        // Do not stay marked as processing if an entry behavior throws.
+        event_processing_reset reset_on_exit{m_event_processing};
         preprocess_entry(event, fsm);
 
         using state_identities =
